@@ -102,15 +102,15 @@ func SanitizeValue(value *otlpCommon.AnyValue) string {
 	case *otlpCommon.AnyValue_BytesValue:
 		return base64.StdEncoding.EncodeToString(v.BytesValue)
 	case *otlpCommon.AnyValue_ArrayValue:
-		items := make([]string, len(v.ArrayValue.Values))
-		for i, item := range v.ArrayValue.Values {
+		items := make([]string, len(v.ArrayValue.GetValues()))
+		for i, item := range v.ArrayValue.GetValues() {
 			items[i] = SanitizeValue(item)
 		}
 		jsonItems, _ := json.Marshal(items)
 		return string(jsonItems)
 	case *otlpCommon.AnyValue_KvlistValue:
 		kvMap := make(map[string]string)
-		for _, kv := range v.KvlistValue.Values {
+		for _, kv := range v.KvlistValue.GetValues() {
 			kvMap[SanitizeKey(kv.Key)] = SanitizeValue(kv.Value)
 		}
 		jsonMap, _ := json.Marshal(kvMap)
